@@ -91,6 +91,19 @@ def cases(tier, seed):
             for d in range(4):
                 out.append({"kind": "run", "cls": "canonical:" + name, "routine": routine, "idx": 10 ** 6 + d, "seed": 0, "maxd": maxd,
                             "nseeds": 3, "fixed": fx})
+    # size ladder: dimensions beyond plausible panel heights / thresholds (16, 32, 64 rows; target rank above 8; oversampling 10),
+    # exact-rank (r = R: the reconstruction must be exact) and generic spectra, even and odd pass counts
+    ladder = [(40, 24, 9, 5, 9, "simple"), (50, 30, 10, 0, 10, "simple"), (70, 26, 12, 10, 12, "geometric"), (33, 9, 4, 2, 4, "simple"),
+              (9, 33, 4, 2, 9, "simple"), (34, 34, 10, 5, 34, "geometric"), (65, 12, 6, 3, 6, "simple"), (12, 65, 6, 3, 12, "geometric"),
+              (36, 20, 12, 10, 20, "simple")]
+    if tier != "quick":
+        ladder += [(a, b, R_, P_, R_, "simple") for (a, b) in ((48, 47), (64, 20), (20, 64), (97, 10), (33, 33), (130, 6)) for (R_, P_) in ((3, 0), (5, 10))]
+    for routine in ("rand_qsvd", "pass_eff_qsvd"):
+        for j, (m_, n_, R_, P_, r_, kind_) in enumerate(ladder):
+            for par in ((2, 2), (3, 3)) if tier == "quick" else ((0, 2), (1, 3), (2, 4), (3, 5)):
+                out.append({"kind": "run", "cls": "ladder", "routine": routine, "idx": 2 * 10 ** 6 + 10 * j + par[0], "seed": seed, "maxd": maxd,
+                            "nseeds": 1 if tier == "quick" else 3,
+                            "fixed": {"m": m_, "n": n_, "R": R_, "P": P_, "r": r_, "kind": kind_, "n_iter": par[0], "n_passes": par[1]}})
     return out
 
 
